@@ -88,7 +88,7 @@ Deliverables - create the directory {wt}/_seed/ containing:
   meta.json    {{"property": "{pid}", "summary": "<what the change does, 3-8 sentences>", "needs": "<what exactly is
                needed for it to manifest>", "files": [...], "tests": "<the pytest summary line you observed>"}}
 Leave the source change applied in the worktree. In your final answer give the summary, what it needs to manifest, the
-pytest summary line, and the two demo exit codes. Do not commit anything.
+pytest summary line, and the two demo exit codes. Do not commit anything. Do NOT use `git stash` (the stash is shared with other worktrees of the same repository): to compare with the unchanged tree use `git diff > /tmp/x.diff; git checkout -- .; ...; git apply /tmp/x.diff`, or simply run things against /repo.
 """
 
 if __name__ == '__main__':
